@@ -596,6 +596,37 @@ def _extend_loop(loop, total=None):
     return new
 
 
+def counter_to_enumerate(block: list[ast.stmt], root) -> list[ast.stmt]:
+    """c = K; for T in S: BODY; c += 1   ->   for c, T in enumerate(S[, K]): BODY      (c an int counter touched nowhere else, not read
+    after the loop; BODY without `continue`, so that the increment is reached on every iteration)"""
+    out: list[ast.stmt] = []
+    i = 0
+    while i < len(block):
+        s = block[i]
+        nxt = block[i + 1] if i + 1 < len(block) else None
+        if isinstance(s, ast.Assign) and len(s.targets) == 1 and isinstance(s.targets[0], ast.Name) and isinstance(s.value, ast.Constant) \
+                and type(s.value.value) is int and isinstance(nxt, ast.For) and not nxt.orelse and len(nxt.body) >= 2:
+            c = s.targets[0].id
+            last = nxt.body[-1]
+            body = nxt.body[:-1]
+            if isinstance(last, ast.AugAssign) and isinstance(last.op, ast.Add) and isinstance(last.target, ast.Name) and last.target.id == c \
+                    and isinstance(last.value, ast.Constant) and last.value.value == 1 \
+                    and c not in _assigned_names(body) and c not in {n.id for n in ast.walk(nxt.target) if isinstance(n, ast.Name)} \
+                    and not any(isinstance(n, ast.Name) and n.id == c for n in ast.walk(nxt.iter)) \
+                    and not any(isinstance(n, ast.Continue) for b_ in body for n in ast.walk(b_)) and not _escapes(nxt, {c}, root):
+                args = [nxt.iter] + ([ast.Constant(s.value.value)] if s.value.value != 0 else [])
+                new = ast.For(target=ast.Tuple(elts=[ast.Name(id=c, ctx=ast.Store()), nxt.target], ctx=ast.Store()),
+                              iter=ast.Call(func=ast.Name(id="enumerate", ctx=ast.Load()), args=args, keywords=[]), body=body, orelse=[], type_comment=None)
+                ast.copy_location(new, nxt)
+                ast.fix_missing_locations(new)
+                out.append(new)
+                i += 2
+                continue
+        out.append(s)
+        i += 1
+    return out
+
+
 def normalise_loops(stmts: list[ast.stmt]) -> list[ast.stmt]:
     stmts = [copy.deepcopy(s) for s in stmts]
     total = _loads(stmts)
@@ -615,7 +646,7 @@ def normalise_loops(stmts: list[ast.stmt]) -> list[ast.stmt]:
             if isinstance(s, ast.Try):
                 for h in s.handlers:
                     h.body = rec(h.body)
-        return loops_to_comps(block, total)
+        return loops_to_comps(counter_to_enumerate(block, total), total)
     return rec(stmts)
 
 
